@@ -14,7 +14,7 @@ CLAIMED = {
    note="Page granularity 4KiB is assumed; the commit-offset provider is truthful (component level); file truncation is not generated (the property lists torn writes, zeroed and random bytes).",
    technique="fault injection (page-subset crash images, header/payload/index corruption) + bit-exact read-back oracle"),
  "C18": dict(engine="coordpure", level="exploration",
-   text="GenerateShards is checked for every shard count up to 4096 (quick) / 16384 (thorough) and sampled far above; ApplyClusterChanges is folded over seeded config-change sequences with the real ensemble selector as supplier and after every step each namespace must partition [0,2^32-1] with never-reused ids. (Coordinator-published assignments and client routing are added by the coord/client engines when built.)",
+   text="GenerateShards is checked for every shard count up to 4096 (quick) / 16384 (thorough) and sampled far above; ApplyClusterChanges is folded over seeded config-change sequences with the real ensemble selector as supplier and after every step each namespace must partition [0,2^32-1] with never-reused ids. A third part pushes successive assignments (splits, merges, re-creation with other shard counts under fresh ids) through a fake service to the real client and checks, from the shard id each request arrives on, that every probe key is routed to the one shard of the current assignment that owns its hash.",
    note="Namespaces with a shard in Deleting state are excluded on purpose (legitimate transient). Shard counts are sampled above the exhaustive bound.",
    technique="invariant checks over enumerated shard counts and seeded config-change sequences"),
  "C19": dict(engine="coordpure", level="exploration",
@@ -81,12 +81,18 @@ CLAIMED = {
    text="Three parts on an RF=1 leader (real WAL, Pebble, session manager). (1) Session-centred seeded sequences over few keys (ephemeral puts, take-overs by other sessions and plain puts, deletes, ranges, writes naming closed/unknown sessions, CloseSession, leader restarts into a new term); after every step responses and the raw database (records with owner, session keys, exactly one shadow key per owned record) are compared with the reference model. (2) Cleanup against concurrent writers: the hook between listing a session's keys and the cleanup write runs 1..4 writes of other clients (and of the closing session) on those keys, for CloseSession and for real expiry; answers and final state must match the model for some position of an atomic close in that sequence. (3) Real 2 s sessions with seeded heartbeat schedules and a leader restart, polled every 10 ms: no expiry unless a full timeout without (re)arming can have elapsed, records gone in the same observation as the session, writes naming the expired session refused.",
    note="Timers are real (no clock is injectable in session.go): the expiry part measures time, with the heartbeat's send time as the conservative bound; late expiry is counted, not judged. Leader change is a restart of the single node into a new term; multi-node failover with sessions in the log is covered by the C06 routes.",
    technique="reference-model monitor + hook-driven interleaving with an atomicity oracle (all linearization points tried) + timed observation of real session timers"),
+ "C20": dict(engine="client", level="exploration",
+   text="The real public async client (oxia.NewAsyncClient) talks over loopback gRPC to a fake OxiaClient service whose answers are a function of the request alone and which logs everything it receives. Batching: 2..8 caller goroutines, linger 0/1/5 ms, 1/2/7/1000 requests per batch, values up to 60 KB (byte-size splits), 1..6 shards, retriable and non-retriable failures of the k-th write/read request of a shard, per-shard delays; every channel must yield exactly one result, that of its own operation, failed operations were never applied, successful ones exactly once. Fan-out: list / range-scan / floor-ceiling-lower-higher gets over 2..7 shards with chunked, delayed per-shard answers, with and without partition key, with one or all shards failing; results are compared with the union computed by an independent implementation of the key order, and every call must terminate.",
+   note="A write stream ended by the service with a status surfaces in the client as EOF, so operations on it fail rather than being retried: counted as failure reports (the property allows an operation to complete with an error), not as violations. Sessions, notifications and sequence updates of the client are not part of this property.",
+   technique="recorded request/response log at a fake service + exactly-once/own-result oracle at the client API under fault injection + race detector"),
 }
 
 NOT_APPLICABLE = {}
 DEFAULT_NA = "check not built yet in this session (work in progress)"
 
 ENGINES = [
+ {"name": "client", "path": "harness/engines/client", "serves_properties": ["C18", "C20"],
+  "kind_free_text": "real public client library over loopback gRPC against a deterministic fake OxiaClient service (lib/fakeoxia)"},
  {"name": "coord", "path": "harness/engines/coord", "serves_properties": ["C01", "C02", "C05"],
   "kind_free_text": "real coordinator ShardController + StatusResource over harness-owned metadata store and coordination RPCs (lib/ctl), real storage nodes (lib/replcluster); real file metadata provider under concurrent observers"},
  {"name": "repl", "path": "harness/engines/repl", "serves_properties": ["C03", "C04", "C06", "C07", "C08"],
